@@ -77,7 +77,7 @@ impl Scenario for Race {
     fn runs(&self, tier: Tier) -> u64 {
         match tier {
             Tier::Quick => 60_000,
-            Tier::Thorough => 1_500_000,
+            Tier::Thorough => 600_000,
         }
     }
     fn shrink_paths(&self) -> Vec<&'static str> {
